@@ -41,7 +41,7 @@ fn check_abbr(s: &str) -> Verdict {
 }
 
 fn decode(t: &mut Tape) -> Case {
-    let mode = t.weighted(&[3, 3, 2, 2]);
+    let mode = t.weighted(&[3, 3, 2, 2, 2]);
     let abbr = match mode {
         0 => {
             // a real abbreviation, possibly decorated
@@ -61,6 +61,18 @@ fn decode(t: &mut Tape) -> Case {
         2 => {
             // a prefix name instead of an abbreviation
             SI_PREFIXES[t.below(SI_PREFIXES.len())].1.to_string()
+        }
+        4 => {
+            // a long string that starts with an abbreviation (or nothing):
+            // byte lengths around the multiples of 256 and of 65536
+            let base = SI_PREFIXES[t.below(SI_PREFIXES.len())].2.to_string();
+            let target = [255usize, 256, 257, 258, 259, 511, 512, 513, 514, 65536, 65537, 65538][t.below(12)];
+            let pad = ['x', ' ', '\0', 'k', 'm'][t.below(5)];
+            let mut s = base;
+            while s.len() < target {
+                s.push(pad);
+            }
+            s
         }
         _ => {
             let n = t.below(4);
